@@ -1,18 +1,33 @@
 /-
   Property C06 — reported uncertainties and p-values are coherent with the evaluations.
-  Property theorems only; helper lemmas live in Rsa/Lemmas.
+  Property theorems only; helper lemmas live in Rsa/Lemmas/C06.lean.
+
+  `K` is any linearly ordered field; `ℝ` (with `Real.sqrt`) is used where a square root occurs.
+  The Student-t CDF is an arbitrary `F` satisfying the contract `IsCdf`; the Wilcoxon test an
+  arbitrary symmetric function.
 -/
 import Mathlib.Algebra.Order.Field.Basic
+import Mathlib.Analysis.Real.Sqrt
 import Mathlib.Tactic.Linarith
 import Mathlib.Tactic.FieldSimp
 import Mathlib.Tactic.Ring
+import Mathlib.Tactic.Positivity
 import Rsa.Gen.C06
+import Rsa.Core.Stats
+import Rsa.Lemmas.C06
+
+set_option linter.unusedSectionVars false
+set_option linter.unusedVariables false
+set_option linter.unusedSimpArgs false
+set_option linter.style.longLine false
 
 namespace Rsa.Props.C06
 
-open Rsa.Gen.C06
+open Rsa Rsa.Gen.C06 Rsa.Stats Rsa.Lemmas.C06
 
 variable {K : Type} [Field K] [LinearOrder K] [IsStrictOrderedRing K]
+
+/-! ## 1. the generated leaves: dual-bootstrap clamp and the `n/(n-1)` factor -/
 
 /-- the dual-bootstrap combination never exceeds the two-factor bootstrap variance
     (`variances[0]`), whatever the three inputs are. -/
@@ -58,5 +73,706 @@ theorem correct1d_factor (v np nr : K) :
 -- non-vacuity: the hypotheses of `dual_ge_single` are met by concrete numbers
 example : (2 : ℚ) ≤ 5 ∧ dualBootstrap (5 : ℚ) 2 1 = 2 := by
   unfold dualBootstrap; norm_num
+
+/-- the factor applied by `_correct_1d` for every combination of passed counts -/
+def factor (np nr : Option K) : K :=
+  match np, nr with
+  | some np, some nr => min nr np / (min nr np - 1)
+  | some np, none => np / (np - 1)
+  | none, some nr => nr / (nr - 1)
+  | none, none => 1
+
+theorem correct_eq_factor (np nr : Option K) (v : K) : correct np nr v = factor np nr * v := by
+  cases np <;> cases nr <;>
+    simp [correct, factor, correct1dBoth, correct1dPattern, correct1dRdm, correct1dNone]
+
+/-- the single-factor variances the dual bootstrap is compared with: corrected by `n/(n-1)`
+    exactly when both counts are passed (the small-sample formula), else as they are -/
+def singleRdm (nr np : Option K) (v1 : K) : K :=
+  match nr, np with
+  | some a, some _ => correct1dRdm v1 a
+  | _, _ => v1
+
+def singlePattern (nr np : Option K) (v2 : K) : K :=
+  match nr, np with
+  | some _, some b => correct1dPattern v2 b
+  | _, _ => v2
+
+/-- all four call patterns of `_dual_bootstrap` (none, one or both counts passed): never above
+    the two-factor variance, never below a (corrected) single-factor variance that is itself
+    not above the two-factor variance. -/
+theorem dual_bounds_all_branches (nr np : Option K) (v0 v1 v2 : K) :
+    dual nr np v0 v1 v2 ≤ v0 ∧
+    (singleRdm nr np v1 ≤ v0 → singleRdm nr np v1 ≤ dual nr np v0 v1 v2) ∧
+    (singlePattern nr np v2 ≤ v0 → singlePattern nr np v2 ≤ dual nr np v0 v1 v2) := by
+  cases nr <;> cases np <;>
+    simp only [dual, singleRdm, singlePattern, dualBootstrap, dualBootstrapR, dualBootstrapP,
+      dualBootstrapN, correct1dRdm, correct1dPattern] <;>
+    refine ⟨min_le_right _ _, fun h => le_min (le_trans (le_max_right _ _) (le_max_left _ _)) h,
+      fun h => le_min (le_max_right _ _) h⟩
+
+example : dual (some (4 : ℚ)) (some 3) 5 2 1 = 8 / 3 ∧ singleRdm (some (4 : ℚ)) (some (3 : ℚ)) 2 = 8 / 3 := by
+  simp only [dual, singleRdm, dualBootstrapN, correct1dRdm]; norm_num
+
+/-! ## 2. variances are contrasts of the stored covariance -/
+
+/-- entry `p = (i, j)` of `diag(C V Cᵀ)` is `V_ii + V_jj - V_ij - V_ji`
+    (`var_i + var_j - 2 cov_ij` for symmetric `V`), for every pair of the enumeration. -/
+theorem diff_var_contrast (m : Nat) (V : Nat → Nat → K) (p : Nat × Nat) (hp : p ∈ pairs m) :
+    rawDiff m V p = specDiff V p ∧
+    (V p.1 p.2 = V p.2 p.1 → rawDiff m V p = V p.1 p.1 + V p.2 p.2 - 2 * V p.1 p.2) := by
+  have h := mem_pairs hp
+  have e : rawDiff m V p = specDiff V p := by
+    unfold rawDiff specDiff
+    exact quadForm_contrast m V p (by omega) h.2 (by omega)
+  refine ⟨e, fun hs => ?_⟩
+  rw [e, specDiff, ← hs]; ring
+
+/-- the model-versus-ceiling variance `V_ii - 2 V_{i,nc} + V_{nc,nc}` is the variance of the
+    contrast `e_i - e_nc` of the stored (symmetric) covariance, `nc = m + c` the ceiling row. -/
+theorem nc_var_contrast (m : Nat) (V : Nat → Nat → K) (i c : Nat) (hi : i < m) (hc : c < 2)
+    (hs : V i (m + c) = V (m + c) i) :
+    rawNc m true V i c = quadForm (m + 2) (contrastEntry (i, m + c)) V := by
+  rw [quadForm_contrast (m + 2) V (i, m + c) (by simp; omega) (by simp; omega) (by simp; omega)]
+  simp only [rawNc, if_true]
+  rw [← hs]; push_cast; ring
+
+/-- 2-D input: per-model variance, pairwise-difference variance and model-versus-ceiling
+    variance are the contrasts of the stored covariance times exactly the documented factor. -/
+theorem extract2_spec (m : Nat) (nc : Bool) (V : Nat → Nat → K) (np nr : Option K) :
+    (extract2 m nc V np nr).model = (List.range m).map (fun i => factor np nr * V i i) ∧
+    (extract2 m nc V np nr).diff = (pairs m).map (fun p => factor np nr * specDiff V p) ∧
+    (extract2 m nc V np nr).nc = (List.range m).map (fun i =>
+      (factor np nr * rawNc m nc V i 0, factor np nr * rawNc m nc V i 1)) := by
+  refine ⟨?_, ?_, ?_⟩
+  · simp [extract2, rawModel, correct_eq_factor]
+  · simp only [extract2]
+    apply List.map_congr_left
+    intro p hp
+    rw [correct_eq_factor, (diff_var_contrast m V p hp).1]
+  · simp [extract2, correct_eq_factor]
+
+/-- 1-D input (independent evaluations): difference variance `var_i + var_j`,
+    model-versus-ceiling variance `var_i + var_nc`, same factor. -/
+theorem extract1_spec (m : Nat) (nc : Bool) (v : Nat → K) (np nr : Option K) :
+    (extract1 m nc v np nr).model = (List.range m).map (fun i => factor np nr * v i) ∧
+    (extract1 m nc v np nr).diff = (pairs m).map (fun p => factor np nr * (v p.1 + v p.2)) ∧
+    (extract1 m nc v np nr).nc = (List.range m).map (fun i =>
+      (factor np nr * (if nc then v i + v m else v i),
+       factor np nr * (if nc then v i + v (m + 1) else v i))) := by
+  refine ⟨?_, ?_, ?_⟩
+  · simp [extract1, correct_eq_factor]
+  · simp only [extract1]
+    apply List.map_congr_left
+    intro p hp
+    have h := mem_pairs hp
+    rw [correct_eq_factor, (diff_var_contrast m (diagMat v) p hp).1]
+    have hne : p.1 ≠ p.2 := by omega
+    simp [specDiff, diagMat, hne, Ne.symm hne]
+  · simp [extract1, correct_eq_factor, rawNc1]
+
+/-- 3-D input (dual bootstrap): every reported variance is the clamp applied to the three
+    corresponding contrasts; hence it never exceeds the two-factor contrast and never falls
+    below a (corrected) single-factor contrast that is itself not above the two-factor one. -/
+theorem extract3_bounds (m : Nat) (nc : Bool) (V0 V1 V2 : Nat → Nat → K) (nr np : Option K) :
+    List.Forall₂ (fun out i => out ≤ V0 i i ∧
+        (singleRdm nr np (V1 i i) ≤ V0 i i → singleRdm nr np (V1 i i) ≤ out) ∧
+        (singlePattern nr np (V2 i i) ≤ V0 i i → singlePattern nr np (V2 i i) ≤ out))
+      (extract3 m nc V0 V1 V2 nr np).model (List.range m) ∧
+    List.Forall₂ (fun out p => out ≤ specDiff V0 p ∧
+        (singleRdm nr np (specDiff V1 p) ≤ specDiff V0 p → singleRdm nr np (specDiff V1 p) ≤ out) ∧
+        (singlePattern nr np (specDiff V2 p) ≤ specDiff V0 p →
+          singlePattern nr np (specDiff V2 p) ≤ out))
+      (extract3 m nc V0 V1 V2 nr np).diff (pairs m) ∧
+    List.Forall₂ (fun out i =>
+        out.1 ≤ rawNc m nc V0 i 0 ∧ out.2 ≤ rawNc m nc V0 i 1 ∧
+        (singleRdm nr np (rawNc m nc V1 i 0) ≤ rawNc m nc V0 i 0 →
+          singleRdm nr np (rawNc m nc V1 i 0) ≤ out.1) ∧
+        (singlePattern nr np (rawNc m nc V2 i 0) ≤ rawNc m nc V0 i 0 →
+          singlePattern nr np (rawNc m nc V2 i 0) ≤ out.1))
+      (extract3 m nc V0 V1 V2 nr np).nc (List.range m) := by
+  refine ⟨?_, ?_, ?_⟩
+  · simp only [extract3, List.forall₂_map_left_iff]
+    exact List.forall₂_same.mpr (fun i _ => dual_bounds_all_branches nr np _ _ _)
+  · simp only [extract3, List.forall₂_map_left_iff]
+    refine List.forall₂_same.mpr (fun p hp => ?_)
+    rw [(diff_var_contrast m V0 p hp).1, (diff_var_contrast m V1 p hp).1,
+      (diff_var_contrast m V2 p hp).1]
+    exact dual_bounds_all_branches nr np _ _ _
+  · simp only [extract3, List.forall₂_map_left_iff]
+    refine List.forall₂_same.mpr (fun i _ => ?_)
+    have h0 := dual_bounds_all_branches nr np (rawNc m nc V0 i 0) (rawNc m nc V1 i 0) (rawNc m nc V2 i 0)
+    have h1 := dual_bounds_all_branches nr np (rawNc m nc V0 i 1) (rawNc m nc V1 i 1) (rawNc m nc V2 i 1)
+    exact ⟨h0.1, h1.1, h0.2.1, h0.2.2⟩
+
+-- non-vacuity: a 2-model covariance with ceiling rows; (0,1) is a pair; V is symmetric
+example : ((0, 1) : Nat × Nat) ∈ pairs 2 := by decide
+example : rawDiff 2 (fun i j => if i = j then (2 : ℚ) else 1) (0, 1) = 2 := by
+  rw [(diff_var_contrast 2 _ (0, 1) (by decide)).1]; simp [specDiff]; norm_num
+
+/-- the evaluation functions correct with the count of the factor they resample: `n_rdm` for
+    the fixed and the RDM-bootstrap evaluation whatever the number of conditions, `n_cond` for
+    the pattern bootstrap whatever the number of RDMs, the smaller of the two when both factors
+    are resampled. -/
+theorem evaluator_factor (nRdm nCond : K) :
+    (let ns := evaluatorNs Resampled.rdm nRdm nCond; factor ns.2 ns.1 = nRdm / (nRdm - 1)) ∧
+    (let ns := evaluatorNs Resampled.pattern nRdm nCond; factor ns.2 ns.1 = nCond / (nCond - 1)) ∧
+    (let ns := evaluatorNs Resampled.both nRdm nCond;
+      factor ns.2 ns.1 = min nRdm nCond / (min nRdm nCond - 1)) ∧
+    resampledOf "fixed" = some .rdm ∧ resampledOf "bootstrap_rdm" = some .rdm ∧
+    resampledOf "bootstrap_pattern" = some .pattern ∧ resampledOf "bootstrap" = some .both ∧
+    resampledOf "dual_bootstrap" = some .both := by
+  refine ⟨rfl, rfl, rfl, by decide, by decide, by decide, by decide, by decide⟩
+
+/-! ## 3. fixed evaluation: the classical across-subject statistics -/
+
+/-- `eval_fixed` stores `cov(ddof=0)/n`; after the `n/(n-1)` correction (`n_rdm = n` passed,
+    `n_pattern` not) the per-model variance is `s²/n` (`s²` the unbiased sample variance of the
+    per-subject evaluations) and the pair variance is `s²_{x_i - x_j}/n`. -/
+theorem fixed_sem_is_classical (n : Nat) (hn : 2 ≤ n) (x : Nat → Nat → K) (i j : Nat) :
+    correct none (some (n : K)) (fixedCov n x i i) = sampleVar n (x i) / n ∧
+    correct none (some (n : K)) (specDiff (fixedCov n x) (i, j))
+      = sampleVar n (fun s => x i s - x j s) / n ∧
+    meanN n (fun s => x i s - x j s) = meanN n (x i) - meanN n (x j) := by
+  have hn0 : (n : K) ≠ 0 := by
+    have : (0 : K) < n := by exact_mod_cast (by omega : 0 < n)
+    exact ne_of_gt this
+  have hn1 : (n : K) - 1 ≠ 0 := by
+    have : (1 : K) < n := by exact_mod_cast (by omega : 1 < n)
+    exact ne_of_gt (by linarith)
+  have hmean : meanN n (fun s => x i s - x j s) = meanN n (x i) - meanN n (x j) := by
+    simp only [meanN, sumRange_eq, Finset.sum_sub_distrib]; ring
+  refine ⟨?_, ?_, hmean⟩
+  · simp only [correct, correct1dRdm, fixedCov, sampleVar, Nat.cast_one]
+    field_simp
+  · simp only [correct, correct1dRdm, specDiff, fixedCov, sampleVar, hmean, Nat.cast_one]
+    simp only [sumRange_eq]
+    have e : ∑ s ∈ Finset.range n, (x i s - x j s - (meanN n (x i) - meanN n (x j))) *
+          (x i s - x j s - (meanN n (x i) - meanN n (x j)))
+        = ∑ s ∈ Finset.range n, (x i s - meanN n (x i)) * (x i s - meanN n (x i))
+          + ∑ s ∈ Finset.range n, (x j s - meanN n (x j)) * (x j s - meanN n (x j))
+          - ∑ s ∈ Finset.range n, (x i s - meanN n (x i)) * (x j s - meanN n (x j))
+          - ∑ s ∈ Finset.range n, (x j s - meanN n (x j)) * (x i s - meanN n (x i)) := by
+      rw [← Finset.sum_add_distrib, ← Finset.sum_sub_distrib, ← Finset.sum_sub_distrib]
+      exact Finset.sum_congr rfl (fun s _ => by ring)
+    rw [e]
+    field_simp
+
+/-- the variances `eval_fixed` reports (through `Result` / `extract_variances`) for `m ≥ 2`
+    models: exactly the classical ones. -/
+theorem fixed_vars_classical (m n : Nat) (hm : 2 ≤ m) (hn : 2 ≤ n) (x : Nat → Nat → K) :
+    (fixedVars m n x).model = (List.range m).map (fun i => sampleVar n (x i) / n) ∧
+    (fixedVars m n x).diff = (pairs m).map (fun p => sampleVar n (fun s => x p.1 s - x p.2 s) / n) ∧
+    (fixedVars m n x).nc = (List.range m).map (fun i => (sampleVar n (x i) / n, sampleVar n (x i) / n)) := by
+  have hm1 : ¬ m = 1 := by omega
+  simp only [fixedVars, hm1, if_false]
+  refine ⟨?_, ?_, ?_⟩
+  · simp only [extract2, rawModel]
+    exact List.map_congr_left (fun i _ => (fixed_sem_is_classical n hn x i i).1)
+  · simp only [extract2]
+    apply List.map_congr_left
+    intro p hp
+    rw [(diff_var_contrast m _ p hp).1]
+    exact (fixed_sem_is_classical n hn x p.1 p.2).2.1
+  · simp only [extract2, rawNc]
+    apply List.map_congr_left
+    intro i _
+    simp [(fixed_sem_is_classical n hn x i i).1]
+
+/-- a single model: `np.cov` is 0-d and goes through the 1-D branch — same classical variance,
+    no pairs. -/
+theorem fixed_vars_classical_one (n : Nat) (hn : 2 ≤ n) (x : Nat → Nat → K) :
+    (fixedVars 1 n x).model = [sampleVar n (x 0) / n] ∧ (fixedVars 1 n x).diff = [] ∧
+    (fixedVars 1 n x).nc = [(sampleVar n (x 0) / n, sampleVar n (x 0) / n)] := by
+  have h := (fixed_sem_is_classical n hn x 0 0).1
+  simp only [fixedVars, if_true, extract1, rawNc1]
+  refine ⟨?_, ?_, ?_⟩
+  · simp [List.range_succ, h]
+  · simp [pairs, pairsOf, List.range_succ]
+  · simp [List.range_succ, h]
+
+/-- degrees of freedom of the fixed evaluation: number of subjects minus one (generated leaf) -/
+theorem fixed_dof (n : Int) : fixedDof n = n - 1 := rfl
+
+end Rsa.Props.C06
+
+/-! the remaining sections use `Real.sqrt` for `HasSqrt ℝ` -/
+
+namespace Rsa.Props.C06
+
+open Rsa Rsa.Gen.C06 Rsa.Stats Rsa.Lemmas.C06
+
+noncomputable instance c06SqrtReal : HasSqrt ℝ := ⟨Real.sqrt⟩
+
+/-- textbook one-sample t statistic of `x_0 … x_{n-1}` against `μ` -/
+noncomputable def classicalT (n : Nat) (x : Nat → ℝ) (μ : ℝ) : ℝ :=
+  (meanN n x - μ) / Real.sqrt (sampleVar n x / n)
+
+/-- hence the three t statistics of a fixed evaluation are the textbook one-sample statistic
+    against 0, the one-sample statistic against the (mean lower) noise ceiling `c`, and the
+    paired statistic — whenever the variance is not below the `eps` the code clamps at. -/
+theorem fixed_t_is_classical (n : Nat) (hn : 2 ≤ n) (x : Nat → Nat → ℝ) (eps c : ℝ) (i j : Nat)
+    (hi : eps ≤ sampleVar n (x i) / n)
+    (hij : eps ≤ sampleVar n (fun s => x i s - x j s) / n) :
+    tStat eps (meanN n (x i)) (correct none (some (n : ℝ)) (fixedCov n x i i))
+      = classicalT n (x i) 0 ∧
+    tStat eps (meanN n (x i) - c) (correct none (some (n : ℝ)) (fixedCov n x i i))
+      = classicalT n (x i) c ∧
+    tStat eps (meanN n (x i) - meanN n (x j))
+        (correct none (some (n : ℝ)) (specDiff (fixedCov n x) (i, j)))
+      = classicalT n (fun s => x i s - x j s) 0 := by
+  obtain ⟨h1, h2, h3⟩ := fixed_sem_is_classical n hn x i j
+  refine ⟨?_, ?_, ?_⟩
+  · rw [h1]; simp [tStat, classicalT, HasSqrt.sqrt, max_eq_left hi]
+  · rw [h1]; simp [tStat, classicalT, HasSqrt.sqrt, max_eq_left hi]
+  · rw [h2]; simp [tStat, classicalT, HasSqrt.sqrt, max_eq_left hij, h3]
+
+-- non-vacuity: two subjects with evaluations 0 and 1 have `s²/n = 1/4`, far above the clamp
+example : (1 / 1000 : ℚ) ≤ sampleVar 2 (fun s => (s : ℚ)) / ((2 : Nat) : ℚ) := by
+  norm_num [sampleVar, meanN, sumRange, fsum, List.range_succ]
+
+/-! ## 4. p-values for an abstract CDF -/
+
+section pvalues
+variable {K : Type} [Field K] [LinearOrder K] [IsStrictOrderedRing K]
+
+/-- the contract of the external `scipy.stats.t.cdf(·, dof)` -/
+structure IsCdf (F : K → K) : Prop where
+  mono : Monotone F
+  half : F 0 = 1 / 2
+  nonneg : ∀ t, 0 ≤ F t
+  le_one : ∀ t, F t ≤ 1
+
+/-- all three kinds of t-test p-values lie in `[0, 1]` -/
+theorem p_range (F : K → K) (hF : IsCdf F) (t : K) :
+    0 ≤ pTwo F t ∧ pTwo F t ≤ 1 ∧ 0 ≤ pOne F t ∧ pOne F t ≤ 1 := by
+  have h1 : F 0 ≤ F (absG t) := hF.mono (by rw [absG_eq_abs]; exact abs_nonneg t)
+  rw [hF.half] at h1
+  have h2 := hF.le_one (absG t)
+  have h3 := hF.nonneg t
+  have h4 := hF.le_one t
+  simp only [pTwo, pOne, Nat.cast_ofNat]
+  refine ⟨by nlinarith, by linarith, by linarith, by linarith⟩
+
+/-- the pairwise t-test matrix is symmetric -/
+theorem pairwise_symm [HasSqrt K] (F : K → K) (eps : K) (m : Nat) (e : Nat → K) (dv : List K)
+    (i j : Nat) : pPairT F eps m e dv i j = pPairT F eps m e dv j i := by
+  simp only [pPairT, tPairMat]
+  rw [vecToMat_symm]
+
+/-- … with unit diagonal -/
+theorem pairwise_diag_one [HasSqrt K] (F : K → K) (hF : IsCdf F) (eps : K) (m : Nat)
+    (e : Nat → K) (dv : List K) (i : Nat) : pPairT F eps m e dv i i = 1 := by
+  simp only [pPairT, tPairMat, vecToMat, if_true, pTwo, absG, neg_zero, max_self, hF.half]
+  norm_num
+
+-- non-vacuity: a function satisfying the CDF contract
+example : IsCdf (fun t : ℚ => max 0 (min 1 (1 / 2 + t))) where
+  mono := fun a b h => max_le_max le_rfl (min_le_min le_rfl (by linarith))
+  half := by norm_num
+  nonneg := fun t => le_max_left _ _
+  le_one := fun t => max_le (by norm_num) (min_le_left _ _)
+
+end pvalues
+
+/-- in the t-tests a larger effect at equal variance never yields a larger p-value:
+    two-sided tests in `|effect|`, the one-sided test in the effect itself. -/
+theorem p_antitone_in_effect (F : ℝ → ℝ) (hF : IsCdf F) (eps v e1 e2 : ℝ) (heps : 0 < eps) :
+    (|e1| ≤ |e2| → pTwo F (tStat eps e2 v) ≤ pTwo F (tStat eps e1 v)) ∧
+    (e1 ≤ e2 → pOne F (tStat eps e2 v) ≤ pOne F (tStat eps e1 v)) := by
+  have hs : 0 < Real.sqrt (max v eps) := Real.sqrt_pos.mpr (lt_of_lt_of_le heps (le_max_right _ _))
+  constructor
+  · intro h
+    have : absG (tStat eps e1 v) ≤ absG (tStat eps e2 v) := by
+      simp only [absG_eq_abs, tStat, HasSqrt.sqrt, abs_div, abs_of_pos hs]
+      exact div_le_div_of_nonneg_right h hs.le
+    have := hF.mono this
+    simp only [pTwo, Nat.cast_ofNat]
+    linarith
+  · intro h
+    have : tStat eps e1 v ≤ tStat eps e2 v := by
+      simp only [tStat, HasSqrt.sqrt]
+      exact div_le_div_of_nonneg_right h hs.le
+    have := hF.mono this
+    simp only [pOne]
+    linarith
+
+example : |(1 : ℝ)| ≤ |(-2 : ℝ)| := by norm_num
+
+/-! ## 5. bootstrap tests -/
+
+section boot
+variable {K : Type} [Field K] [LinearOrder K] [IsStrictOrderedRing K]
+
+/-- from the counts: `lt` samples with `x_i < x_j`, `gt` with `x_i > x_j`, `eq` ties, not all
+    ties.  The p-value lies in `[1/N, 1]` … -/
+theorem bootstrap_p_range (N lt gt eq : Nat) (hN : lt + gt + eq = N) (hpos : 0 < lt + gt) :
+    (1 : K) / N ≤ bootPairP N lt eq ∧ bootPairP (α := K) N lt eq ≤ 1 ∧ (0 : K) < 1 / N := by
+  have hNpos : (0 : K) < N := by exact_mod_cast (by omega : 0 < N)
+  have hden : (N : K) - eq = lt + gt := by
+    have : (N : K) = lt + gt + eq := by exact_mod_cast hN.symm
+    rw [this]; ring
+  have hd : (0 : K) < (lt : K) + gt := by exact_mod_cast hpos
+  have hlt : (0 : K) ≤ lt := Nat.cast_nonneg _
+  have hgt : (0 : K) ≤ gt := Nat.cast_nonneg _
+  have hp0 : (0 : K) ≤ (lt : K) / (lt + gt) := div_nonneg hlt hd.le
+  have hp1 : (lt : K) / (lt + gt) ≤ 1 := by
+    rw [div_le_one hd]; linarith
+  set prop : K := (lt : K) / (lt + gt) with hprop
+  have hm0 : 0 ≤ min prop (1 - prop) := le_min hp0 (by linarith)
+  have hm1 : min prop (1 - prop) * 2 ≤ 1 := by
+    rcases le_total prop (1 - prop) with h | h
+    · rw [min_eq_left h]; linarith
+    · rw [min_eq_right h]; linarith
+  have hN1 : (1 : K) ≤ N := by exact_mod_cast (by omega : 1 ≤ N)
+  simp only [bootPairP, bootShrink, bootTwoSided, hden, Nat.cast_one, Nat.cast_ofNat]
+  rw [← hprop]
+  have hfrac : (0 : K) ≤ ((N : K) - 1) / N := div_nonneg (by linarith) hNpos.le
+  refine ⟨?_, ?_, by positivity⟩
+  · have : 0 ≤ ((N : K) - 1) / N * (min prop (1 - prop) * 2) := mul_nonneg hfrac (by linarith)
+    linarith
+  · have h1 : ((N : K) - 1) / N * (min prop (1 - prop) * 2) ≤ ((N : K) - 1) / N * 1 :=
+      mul_le_mul_of_nonneg_left hm1 hfrac
+    have h2 : ((N : K) - 1) / N * 1 + 1 / N = 1 := by field_simp; ring
+    linarith
+
+/-- … and does not depend on which of the two models is called the first -/
+theorem bootPairP_swap (N lt gt eq : Nat) (hN : lt + gt + eq = N) :
+    bootPairP (α := K) N lt eq = bootPairP N gt eq := by
+  rcases Nat.eq_zero_or_pos (lt + gt) with h0 | hpos
+  · have h1 : lt = 0 := by omega
+    have h2 : gt = 0 := by omega
+    rw [h1, h2]
+  · have hden : (N : K) - eq = lt + gt := by
+      have : (N : K) = lt + gt + eq := by exact_mod_cast hN.symm
+      rw [this]; ring
+    have hd : (0 : K) < (lt : K) + gt := by exact_mod_cast hpos
+    have e1 : (gt : K) / (lt + gt) = 1 - (lt : K) / (lt + gt) := by field_simp; ring
+    simp only [bootPairP, bootShrink, bootTwoSided, hden, e1, Nat.cast_one, sub_sub_cancel]
+    rw [min_comm]
+
+/-- the bootstrap pair test computed for `(i, j)` equals the one computed for `(j, i)`:
+    the counts are taken over the complete bootstrap samples, where `<`, `>`, `=` partition. -/
+theorem bootstrap_pair_swap (nB m : Nat) (c : Nat → Nat → Option K) (i j : Nat)
+    (hi : i < m) (hj : j < m) :
+    bootPair (α := K) (fun a b => decide (a < b)) (fun a b => decide (a = b)) nB m c i j
+      = bootPair (fun a b => decide (a < b)) (fun a b => decide (a = b)) nB m c j i := by
+  simp only [bootPair]
+  set rows := completeRows nB m c with hrows
+  have hcomp : ∀ r ∈ rows, ∃ a b, c r i = some a ∧ c r j = some b := by
+    intro r hr
+    simp only [hrows, completeRows, List.mem_filter, List.all_eq_true, List.mem_range] at hr
+    have h1 := hr.2 i hi
+    have h2 := hr.2 j hj
+    obtain ⟨a, ha⟩ := Option.isSome_iff_exists.mp h1
+    obtain ⟨b, hb⟩ := Option.isSome_iff_exists.mp h2
+    exact ⟨a, b, ha, hb⟩
+  have hboth : ∀ (f : K → K → Bool) r a b, c r i = some a → c r j = some b →
+      both c i j f r = f a b ∧ both c j i f r = f b a := by
+    intro f r a b ha hb
+    simp [both, ha, hb]
+  -- ties are symmetric
+  have heq : countRows rows (both c j i (fun a b => decide (a = b)))
+      = countRows rows (both c i j (fun a b => decide (a = b))) := by
+    apply countRows_congr
+    intro r hr
+    obtain ⟨a, b, ha, hb⟩ := hcomp r hr
+    rw [(hboth _ r a b ha hb).1, (hboth _ r a b ha hb).2]
+    simp [eq_comm]
+  -- `<`, `>`, `=` partition the complete rows
+  have htri := countRows_trichotomy rows
+    (both c i j (fun a b => decide (a < b))) (both c j i (fun a b => decide (a < b)))
+    (both c i j (fun a b => decide (a = b)))
+    (by
+      intro r hr
+      obtain ⟨a, b, ha, hb⟩ := hcomp r hr
+      rw [(hboth _ r a b ha hb).1, (hboth _ r a b ha hb).2, (hboth _ r a b ha hb).1]
+      rcases lt_trichotomy a b with h | h | h
+      · left; simp [h, not_lt_of_gt h, ne_of_lt h]
+      · right; right; simp [h]
+      · right; left; simp [h, not_lt_of_gt h, ne_of_gt h])
+  rw [heq]
+  exact bootPairP_swap _ _ _ _ htri
+
+/-- the matrix the code fills (upper triangle, mirrored, diagonal 1) is symmetric with unit
+    diagonal, and every off-diagonal entry is the test of that ordered pair itself. -/
+theorem bootstrap_mat_symm_diag (nB m : Nat) (c : Nat → Nat → Option K) (i j : Nat)
+    (hi : i < m) (hj : j < m) :
+    let lt := fun (a b : K) => decide (a < b)
+    let eq := fun (a b : K) => decide (a = b)
+    bootPairMat lt eq nB m c i j = bootPairMat lt eq nB m c j i ∧
+    bootPairMat (α := K) lt eq nB m c i i = 1 ∧
+    (i ≠ j → bootPairMat lt eq nB m c i j = bootPair lt eq nB m c i j) := by
+  intro lt eq
+  refine ⟨?_, by simp [bootPairMat], ?_⟩
+  · unfold bootPairMat
+    rcases Nat.lt_trichotomy i j with h | h | h
+    · have h1 : ¬ i = j := by omega
+      have h2 : ¬ j = i := by omega
+      have h3 : ¬ j < i := by omega
+      simp [h1, h2, h3, h]
+    · subst h; rfl
+    · have h1 : ¬ i = j := by omega
+      have h2 : ¬ j = i := by omega
+      have h3 : ¬ i < j := by omega
+      simp [h1, h2, h3, h]
+  · intro hne
+    unfold bootPairMat
+    by_cases h : i < j
+    · simp [hne, h]
+    · simp only [hne, h, if_false]
+      exact bootstrap_pair_swap nB m c j i hj hi
+
+/-- permuting the models permutes the bootstrap pair tests: the test of `(i, j)` on the
+    permuted columns is the test of `(σ i, σ j)`; `σ` a bijection of `{0..m-1}`. -/
+theorem bootstrap_perm_equivariant (ltb eqb : K → K → Bool) (nB m : Nat)
+    (c : Nat → Nat → Option K) (σ : Nat → Nat) (hσ : ∀ i, i < m → σ i < m)
+    (hsurj : ∀ j, j < m → ∃ i, i < m ∧ σ i = j) (i j : Nat) :
+    bootPair ltb eqb nB m (fun r k => c r (σ k)) i j = bootPair ltb eqb nB m c (σ i) (σ j) := by
+  have hrows : completeRows nB m (fun r k => c r (σ k)) = completeRows nB m c := by
+    unfold completeRows
+    apply List.filter_congr
+    intro r _
+    rw [Bool.eq_iff_iff]
+    simp only [List.all_eq_true, List.mem_range]
+    constructor
+    · intro h k hk
+      obtain ⟨i, hi, rfl⟩ := hsurj k hk
+      exact h i hi
+    · intro h k hk
+      exact h (σ k) (hσ k hk)
+  simp only [bootPair, hrows]
+  rfl
+
+-- non-vacuity: the transposition of two models is such a `σ`
+example : (∀ i, i < 2 → (fun k => 1 - k) i < 2) ∧ (∀ j, j < 2 → ∃ i, i < 2 ∧ (fun k => 1 - k) i = j) :=
+  ⟨fun i h => by show 1 - i < 2; omega, fun j h => ⟨1 - j, by omega, by show 1 - (1 - j) = j; omega⟩⟩
+
+/-- one-sided bootstrap p-values (against zero, against the ceiling) lie in `[0, 1]` -/
+theorem bootstrap_one_sided_range (leb : K → K → Bool) (nB : Nat) (hN : 0 < nB)
+    (x ref : Nat → Option K) :
+    0 ≤ bootOneSided leb nB x ref ∧ bootOneSided leb nB x ref ≤ 1 := by
+  have hNpos : (0 : K) < nB := by exact_mod_cast hN
+  simp only [bootOneSided]
+  refine ⟨le_min (div_nonneg (by positivity) hNpos.le) zero_le_one, min_le_right _ _⟩
+
+example : (3 : Nat) + 5 + 2 = 10 ∧ 0 < 3 + 5 := by decide
+
+end boot
+
+/-! ## 6. means, standard errors -/
+
+section means
+variable {K : Type} [Field K] [LinearOrder K] [IsStrictOrderedRing K]
+
+/-- NaN-aware average: missing entries are skipped, the rest averaged; without missing
+    entries it is the ordinary mean. -/
+theorem means_nan_aware (l : List (Option K)) (xs : List K) :
+    nanMean l = nanMean ((present l).map some) ∧
+    (xs ≠ [] → nanMean (xs.map some) = some (xs.sum / xs.length)) ∧
+    (nanMean l = none ↔ ∀ x ∈ l, x = none) := by
+  have hp : ∀ ys : List K, present (ys.map some) = ys := by
+    intro ys; simp [present, List.filterMap_map]
+  refine ⟨by simp [nanMean, hp], ?_, ?_⟩
+  · intro hne
+    simp [nanMean, hp, hne, fsum_eq_sum]
+  · simp [nanMean, present]
+
+/-- `get_means` of a bootstrap-type result: the failed samples (rows whose value is NaN) are
+    dropped and the remaining per-sample values averaged. -/
+theorem means_drop_nan_rows (nB m : Nat) (shape : List Nat) (E : Evals K) (j : Nat) (hj : j < m)
+    (val : Nat → K) (hval : ∀ r ∈ validRows nB shape E, cell shape E r j = some (val r))
+    (hne : validRows nB shape E ≠ []) :
+    (getMeansBoot nB m shape E)[j]? =
+      some (some (((validRows nB shape E).map val).sum / (validRows nB shape E).length)) ∧
+    (∀ r, r < nB → (r ∈ validRows nB shape E ↔ (cell shape E r 0).isSome)) := by
+  constructor
+  · simp only [getMeansBoot, List.getElem?_map, List.getElem?_range hj, Option.map_some]
+    have e : (validRows nB shape E).map (fun r => cell shape E r j)
+        = ((validRows nB shape E).map val).map some := by
+      rw [List.map_map]
+      exact List.map_congr_left (fun r hr => hval r hr)
+    rw [e]
+    simp [strictMean, present, List.filterMap_map, hne, fsum_eq_sum]
+  · intro r hr
+    simp [validRows, List.mem_filter, hr]
+
+/-- `get_means` of a fixed / cross-validation result (one row): the NaN-aware average over
+    subjects (folds) of that row. -/
+theorem means_fixed_single_row (m n : Nat) (E : Evals K) :
+    getMeansFixed 1 m n E
+      = (List.range m).map (fun j => nanMean ((List.range n).map (fun s => E 0 j [s]))) := by
+  have h1 : ∀ x : Option K, strictMean [x] = x := by
+    intro x
+    cases x <;> simp [strictMean, present, fsum]
+  simp [getMeansFixed, List.range_succ, h1]
+
+end means
+
+/-- standard errors are non-negative, and their square is the (non-negative) model variance -/
+theorem sem_nonneg (v : ℝ) : 0 ≤ getSem v ∧ (0 ≤ v → getSem v ^ 2 = v) := by
+  refine ⟨Real.sqrt_nonneg _, fun h => ?_⟩
+  simp [getSem, HasSqrt.sqrt, max_eq_left h, Real.sq_sqrt h]
+
+/-! ## 7. permuting the models permutes every output -/
+
+section perm
+variable {K : Type} [Field K] [LinearOrder K] [IsStrictOrderedRing K]
+
+/-- the covariance input of the permuted model list: model indices through `σ`, the two
+    noise-ceiling rows (indices `≥ m`) stay where they are -/
+def permIdx (m : Nat) (σ : Nat → Nat) (i : Nat) : Nat := if i < m then σ i else i
+
+def permCov (m : Nat) (σ : Nat → Nat) (V : Nat → Nat → K) : Nat → Nat → K :=
+  fun i j => V (permIdx m σ i) (permIdx m σ j)
+
+def permEvals (σ : Nat → Nat) (E : Evals K) : Evals K := fun r j idx => E r (σ j) idx
+
+/-- p-value of the pair `(i, j)` as a function of the ordered pair (the specification the
+    coded `squareform` matrix is compared with) -/
+def pPairSpec [HasSqrt K] (F : K → K) (eps : K) (e : Nat → K) (D : Nat → Nat → K) (i j : Nat) : K :=
+  pTwo F (tStat eps (e i - e j) (D i j))
+
+/-- Means, effects, per-model / pair / ceiling variances of the permuted input are the
+    permuted outputs.  `σ` maps `{0..m-1}` into itself injectively; bootstrap samples fail as
+    whole rows (`hrows`), which is how every evaluator writes them. -/
+theorem model_perm_equivariant (nB m : Nat) (shape : List Nat) (E : Evals K) (σ : Nat → Nat)
+    (hσ : ∀ i, i < m → σ i < m) (hinj : ∀ i j, i < m → j < m → σ i = σ j → i = j)
+    (hm : 0 < m)
+    (hrows : ∀ r j j', j < m → j' < m → (cell shape E r j).isSome = (cell shape E r j').isSome)
+    (V V0 V1 V2 : Nat → Nat → K) (nc : Bool) (np nr : Option K) :
+    -- evaluations
+    (∀ j, effect nB shape (permEvals σ E) j = effect nB shape E (σ j)) ∧
+    getMeansBoot nB m shape (permEvals σ E)
+      = (List.range m).map (fun j => strictMean ((validRows nB shape E).map (fun r => cell shape E r (σ j)))) ∧
+    -- 2-D variances
+    (extract2 m nc (permCov m σ V) np nr).model
+      = (List.range m).map (fun i => factor np nr * V (σ i) (σ i)) ∧
+    (extract2 m nc (permCov m σ V) np nr).diff
+      = (pairs m).map (fun p => factor np nr * specDiff V (σ p.1, σ p.2)) ∧
+    (∀ a b, specDiff V (a, b) = specDiff V (b, a)) ∧
+    (extract2 m nc (permCov m σ V) np nr).nc = (List.range m).map (fun i =>
+      (factor np nr * rawNc m nc V (σ i) 0, factor np nr * rawNc m nc V (σ i) 1)) ∧
+    -- 3-D variances
+    (extract3 m nc (permCov m σ V0) (permCov m σ V1) (permCov m σ V2) nr np).model
+      = (List.range m).map (fun i => dual nr np (V0 (σ i) (σ i)) (V1 (σ i) (σ i)) (V2 (σ i) (σ i))) ∧
+    (extract3 m nc (permCov m σ V0) (permCov m σ V1) (permCov m σ V2) nr np).diff
+      = (pairs m).map (fun p => dual nr np (specDiff V0 (σ p.1, σ p.2)) (specDiff V1 (σ p.1, σ p.2))
+          (specDiff V2 (σ p.1, σ p.2))) := by
+  have hcell : ∀ r j, cell shape (permEvals σ E) r j = cell shape E r (σ j) := fun r j => rfl
+  have hpi : ∀ i, i < m → permIdx m σ i = σ i := fun i hi => by simp [permIdx, hi]
+  have hpn : ∀ c, permIdx m σ (m + c) = m + c := fun c => by simp [permIdx]
+  have hdiff : ∀ (W : Nat → Nat → K) p, p ∈ pairs m →
+      rawDiff m (permCov m σ W) p = specDiff W (σ p.1, σ p.2) := by
+    intro W p hp
+    have h := mem_pairs hp
+    rw [(diff_var_contrast m _ p hp).1]
+    simp [specDiff, permCov, hpi p.1 (by omega), hpi p.2 h.2]
+  have hnc : ∀ (W : Nat → Nat → K) i c, i < m →
+      rawNc m nc (permCov m σ W) i c = rawNc m nc W (σ i) c := by
+    intro W i c hi
+    simp [rawNc, permCov, hpi i hi, hpn c]
+  refine ⟨fun j => rfl, ?_, ?_, ?_, ?_, ?_, ?_, ?_⟩
+  · have hv : validRows nB shape (permEvals σ E) = validRows nB shape E := by
+      simp only [validRows, hcell]
+      apply List.filter_congr
+      intro r _
+      exact hrows r (σ 0) 0 (hσ 0 hm) hm
+    simp only [getMeansBoot, hv, hcell]
+  · simp only [extract2, rawModel, correct_eq_factor]
+    exact List.map_congr_left (fun i hi => by
+      rw [List.mem_range] at hi; simp [permCov, hpi i hi])
+  · simp only [extract2, correct_eq_factor]
+    exact List.map_congr_left (fun p hp => by rw [hdiff V p hp])
+  · intro a b; simp only [specDiff]; ring
+  · simp only [extract2, correct_eq_factor]
+    exact List.map_congr_left (fun i hi => by
+      rw [List.mem_range] at hi; rw [hnc V i 0 hi, hnc V i 1 hi])
+  · simp only [extract3, rawModel]
+    exact List.map_congr_left (fun i hi => by
+      rw [List.mem_range] at hi; simp [permCov, hpi i hi])
+  · simp only [extract3]
+    exact List.map_congr_left (fun p hp => by rw [hdiff V0 p hp, hdiff V1 p hp, hdiff V2 p hp])
+
+end perm
+
+/-- the coded pairwise matrix (`squareform` of the pair vector) is, off the diagonal, the
+    p-value of the ordered pair; therefore for the permuted model list it is the permuted
+    matrix: `P' i j = P (σ i) (σ j)`. -/
+theorem pairwise_perm_equivariant (F : ℝ → ℝ) (eps : ℝ) (m : Nat) (e : Nat → ℝ)
+    (D : Nat → Nat → ℝ) (hD : ∀ a b, D a b = D b a) (σ : Nat → Nat)
+    (hσ : ∀ i, i < m → σ i < m) (hinj : ∀ i j, i < m → j < m → σ i = σ j → i = j)
+    (i j : Nat) (hi : i < m) (hj : j < m) (hne : i ≠ j) :
+    pPairT F eps m e ((pairs m).map (fun p => D p.1 p.2)) i j = pPairSpec F eps e D i j ∧
+    pPairT F eps m (fun k => e (σ k)) ((pairs m).map (fun p => D (σ p.1) (σ p.2))) i j
+      = pPairT F eps m e ((pairs m).map (fun p => D p.1 p.2)) (σ i) (σ j) := by
+  -- the coded matrix against the specification, for any effects / symmetric pair variances
+  have key : ∀ (e' : Nat → ℝ) (D' : Nat → Nat → ℝ), (∀ a b, D' a b = D' b a) →
+      ∀ a b, a < m → b < m → a ≠ b →
+      pPairT F eps m e' ((pairs m).map (fun p => D' p.1 p.2)) a b = pPairSpec F eps e' D' a b := by
+    intro e' D' hD' a b ha hb hab
+    have up : ∀ a b, a < b → b < m →
+        vecToMat m 0 0 (tPairVec eps m e' ((pairs m).map (fun p => D' p.1 p.2))) a b
+          = tStat eps (e' a - e' b) (D' a b) := by
+      intro a b hab hb
+      have h1 : ¬ a = b := by omega
+      simp only [vecToMat, h1, hab, if_true, if_false, tPairVec]
+      rw [List.getD_eq_getElem?_getD, List.getElem?_zipWith, List.getElem?_map,
+        pairs_getElem?_triIdx hab hb]
+      simp only [Option.map_some, Option.getD_some]
+      rw [contrast_dot m e' (a, b) (by simp; omega) (by simpa using hb) (by simp; omega)]
+    rcases Nat.lt_or_ge a b with h | h
+    · simp only [pPairT, tPairMat, pPairSpec, up a b h hb]
+    · have h' : b < a := by omega
+      simp only [pPairT, tPairMat, pPairSpec]
+      rw [vecToMat_symm, up b a h' ha, hD' a b]
+      have : tStat eps (e' a - e' b) (D' b a) = - tStat eps (e' b - e' a) (D' b a) := by
+        simp only [tStat]; ring
+      rw [this]
+      simp only [pTwo, absG, neg_neg, max_comm]
+  have hσne : σ i ≠ σ j := fun h => hne (hinj i j hi hj h)
+  refine ⟨key e D hD i j hi hj hne, ?_⟩
+  rw [key (fun k => e (σ k)) (fun a b => D (σ a) (σ b)) (fun a b => hD _ _) i j hi hj hne,
+    key e D hD (σ i) (σ j) (hσ i hi) (hσ j hj) hσne]
+  rfl
+
+/-! ## 8. rank-sum tests (partial: the Wilcoxon p-value itself is external) -/
+
+/-- full statement (not proved here): with `w` the two-sided Wilcoxon signed-rank p-value, the
+    matrix lies in `[0,1]`, is symmetric with unit diagonal and is permuted with the models. -/
+def ranksum_full : Prop :=
+  ∀ (w : List (Option ℝ) → List (Option ℝ) → ℝ), (∀ a b, 0 ≤ w a b ∧ w a b ≤ 1) →
+    (∀ a b, w a b = w b a) → ∀ (nB n : Nat) (E : Evals ℝ) (σ : Nat → Nat) (i j : Nat),
+      0 ≤ ranksumPairMat w nB n E i j ∧ ranksumPairMat w nB n E i j ≤ 1 ∧
+      ranksumPairMat w nB n E i j = ranksumPairMat w nB n E j i ∧
+      (σ i ≠ σ j → ranksumPairMat w nB n (permEvals σ E) i j = ranksumPairMat w nB n E (σ i) (σ j))
+
+/-- proved part: the structure around the external test — symmetric, unit diagonal, range
+    inherited from `w`.  (What `w` computes is the contract of `scipy.stats.wilcoxon`.) -/
+theorem ranksum_mat_symm_diag_partial (w : List (Option ℝ) → List (Option ℝ) → ℝ)
+    (hw : ∀ a b, 0 ≤ w a b ∧ w a b ≤ 1) (nB n : Nat) (E : Evals ℝ) (i j : Nat) :
+    ranksumPairMat w nB n E i j = ranksumPairMat w nB n E j i ∧
+    ranksumPairMat w nB n E i i = 1 ∧
+    0 ≤ ranksumPairMat w nB n E i j ∧ ranksumPairMat w nB n E i j ≤ 1 := by
+  refine ⟨?_, by simp [ranksumPairMat], ?_, ?_⟩
+  · unfold ranksumPairMat
+    rcases Nat.lt_trichotomy i j with h | h | h
+    · have h1 : ¬ i = j := by omega
+      have h2 : ¬ j = i := by omega
+      have h3 : ¬ j < i := by omega
+      simp [h1, h2, h3, h]
+    · subst h; rfl
+    · have h1 : ¬ i = j := by omega
+      have h2 : ¬ j = i := by omega
+      have h3 : ¬ i < j := by omega
+      simp [h1, h2, h3, h]
+  · unfold ranksumPairMat
+    split
+    · exact zero_le_one
+    · split <;> exact (hw _ _).1
+  · unfold ranksumPairMat
+    split
+    · exact le_refl _
+    · split <;> exact (hw _ _).2
 
 end Rsa.Props.C06
